@@ -11,6 +11,38 @@ s=open(p).read()
 old='mc_run(rep, work, "MC_Api", {}, ["Immutable", "Functional", "Deterministic"], workers=8)'
 new='mc_run(rep, work, "MC_Api", {"T": 3}, ["Immutable", "Functional", "Deterministic"], workers=10)'
 assert old in s
-open(p,'w').write(s.replace(old,new,1))
+s=s.replace(old,new,1)
+# replay of "an earlier sprite changed after another load": the recorded case together with the case that followed it
+old="""        cid = reject_case_id(rej)
+        c = find_case(cases, cid) or {"id": cid}
+        rep.violation(sig, re.sub(r"\\s+", " ", rej)[:1200], {"property": rep.pid, "stage": name, "case": c, "tlc": rej, "spec": spec})"""
+new="""        cid = reject_case_id(rej)
+        c = find_case(cases, cid) or {"id": cid}
+        doc = {"property": rep.pid, "stage": name, "case": c, "tlc": rej, "spec": spec}
+        if sig.startswith("second_load_differs"):
+            nxt = None
+            with open(cases) as cf:
+                prev_hit = False
+                for line in cf:
+                    if prev_hit:
+                        nxt = json.loads(line)
+                        break
+                    prev_hit = ('"' + cid + '"') in line and json.loads(line).get("id") == cid
+            if nxt is not None:
+                doc["then"] = nxt
+        rep.violation(sig, re.sub(r"\\s+", " ", rej)[:1200], doc)"""
+assert old in s, "stage_cases block"
+s=s.replace(old,new,1)
+old="""        with open(cases, "w") as f:
+            f.write(json.dumps(doc["case"]) + "\\n")
+        stage_cases(rep, work, b, cases, "replay", spec=doc.get("spec", "Trace_Load"), shards=1, jvms=1, env={"ASEVER_ALLOC_CAP": ALLOC_CAP})"""
+new="""        with open(cases, "w") as f:
+            f.write(json.dumps(doc["case"]) + "\\n")
+            if "then" in doc:
+                f.write(json.dumps(doc["then"]) + "\\n")
+        stage_cases(rep, work, b, cases, "replay", spec=doc.get("spec", "Trace_Load"), shards=1, jvms=1, env={"ASEVER_ALLOC_CAP": ALLOC_CAP})"""
+assert old in s, "replay block"
+s=s.replace(old,new,1)
+open(p,'w').write(s)
 PY
 bin/setup | tail -1
